@@ -396,4 +396,18 @@ theorem spec_nexts_mem (sf base : Nat) (xs : List Item) : ∀ (t : List Op) (n :
     · obtain ⟨i, h1, h2, h3⟩ := spec_nexts_mem sf base xs t (n + 1) (fun o ho => h o (by simp [ho])) r hr
       exact ⟨i, by omega, by simp only [List.length_cons]; omega, h3⟩
 
+/-- every `get_state()` result of the closed form is `(base + j*, m − j*)` for some `m ≤ |xs|` -/
+theorem spec_state_mem (sf base : Nat) (xs : List Item) : ∀ (ops : List Op) (n : Nat) (a b : Nat),
+    SRes.state (a, b) ∈ spec sf base xs n ops →
+    ∃ m, m ≤ xs.length ∧ a = base + PF.jstar sf m ∧ b = m - PF.jstar sf m
+  | [], _, _, _, h => by simp [spec] at h
+  | .next :: ops, n, a, b, h => by
+    simp only [spec, List.mem_cons, reduceCtorEq, false_or] at h
+    exact spec_state_mem sf base xs ops (n + 1) a b h
+  | .get :: ops, n, a, b, h => by
+    simp only [spec, List.mem_cons, SRes.state.injEq, Prod.mk.injEq] at h
+    rcases h with ⟨rfl, rfl⟩ | h
+    · exact ⟨min n xs.length, Nat.min_le_right _ _, rfl, rfl⟩
+    · exact spec_state_mem sf base xs ops n a b h
+
 end TDV.Refine
